@@ -174,6 +174,10 @@ def one_tree(tspec, acc, rnd, sample=False, forced=None):
                         acc.count("external_regexes_with_flags_or_backreferences")
             kw = {"exclude_external_libraries": False}
             kw["regex_external_exclusions" if use_regex else "external_exclusions"] = tuple(pats)
+            if rnd.random() < 0.4:
+                # the other option of the pair explicitly empty: "no patterns of that kind", the same as leaving it out
+                kw["external_exclusions" if use_regex else "regex_external_exclusions"] = ()
+                acc.count("configs_with_the_other_pattern_option_empty")
             se, case = scan("include+regex" if use_regex else "include+glob", **kw)
             case["round"] = [use_regex, list(pats)]
             configs.append((se, case))
